@@ -371,6 +371,7 @@ def run(repo: Repo, ctx) -> None:
     _r7(repo, ctx)
     _r8(repo, ctx)
     _r9(repo, ctx)
+    _r10(repo, ctx)
 
 
 LATERAL_NOT_FORWARDED_OK = {
@@ -1092,3 +1093,40 @@ def _r9(repo: Repo, ctx) -> None:
            'the outer range var (`WITH r AS (SELECT "A~2".id ...)` with no '
            'FROM), which PostgreSQL rejects because CTEs cannot be '
            'correlated', init.loc, sample='self.path_scope = ChainMap()')
+
+
+
+def _r10(repo: Repo, ctx) -> None:
+    """C13.R10 the argument description the client gets is indexed the way
+    the SQL text is.  `_extract_params` fills `in_type_args` / `oparams`
+    under an index; when the SQL compiler produced an argmap, that index is
+    the parameter's `logical_index` in it -- an index counted on the side
+    disagrees with `$n` as soon as an extracted literal precedes a named
+    parameter."""
+    from ..shapes import derives_from
+    ctx.floor('C13.R10', 2)
+    f = repo.func('edb.server.compiler.compiler._extract_params')
+    ctx.saw(f)
+    if 'argmap' not in f.params():
+        raise AnalysisError('C13.R10: _extract_params has no argmap '
+                            'parameter any more')
+    n = 0
+    for a in ast.walk(f.node):
+        if not isinstance(a, ast.Assign):
+            continue
+        for t in a.targets:
+            if isinstance(t, ast.Subscript) and norm(t.value) in (
+                    'in_type_args', 'oparams'):
+                n += 1
+                names = {x.id for x in ast.walk(t.slice)
+                         if isinstance(x, ast.Name)}
+                ok = derives_from(f.node, names, 'argmap')
+                ctx.ob('C13.R10', f'_extract_params:{norm(t.value)}-index',
+                       ok, f'`{norm(t)}` is stored under an index that '
+                       f'never comes from the argmap: the i-th described '
+                       f'argument is not the value bound to $i in the SQL '
+                       f'text', f'{f.module.rel()}:{a.lineno}',
+                       sample=f'index {norm(t.slice)} <- argmap')
+    if n < 2:
+        raise AnalysisError('C13.R10: stores into in_type_args / oparams '
+                            'not found')
